@@ -308,7 +308,9 @@ func runPluginNames() int {
 				}
 				p := filepath.Clean(line)
 				if strings.HasPrefix(p, srcDir+string(filepath.Separator)) {
-					continue // installing runs the SOURCE executable to read its metadata: that is the input, not a lookup
+					// installing runs the SOURCE executable to read its metadata (judged by the spec: only for names that are not refused)
+					obs.Execs = append(obs.Execs, []string{"<install-source>"})
+					continue
 				}
 				if rel, err := filepath.Rel(top, p); err == nil && !strings.HasPrefix(rel, "..") {
 					obs.Execs = append(obs.Execs, splitRel(rel))
